@@ -879,6 +879,9 @@ func (s *scope) interpretFString(f *FString) pyObject {
 }
 
 func (s *scope) interpretSlice(obj pyObject, sl *Slice) pyObject {
+	if l, ok := obj.(pyFrozenList); ok {
+		obj = l.pyList // the slice is a copy, so it doesn't need to be frozen.
+	}
 	start := s.interpretSliceExpression(obj, sl.Start, 0)
 	switch t := obj.(type) {
 	case pyList:
